@@ -84,7 +84,8 @@ GenC02Init ==
   \E p \in Protos, k \in Kinds, codec \in {"proto", "json"}, c \in 1..16, m \in MsgClasses, n \in {0, 1, 2},
      me \in {<<>>, MetaE, <<H("X-Multi", <<"a", "b", "c">>)>>, MetaR}, a \in {0, 1, 2}, ek \in {"err", "wrapped", "ctxwrap"} :
     \E http \in HTTPs(k) :
-      /\ (k \in {"unary", "client"} => a = 0)
+      \* (unary: nothing can follow the response; client streaming: an interceptor's error can -- a = 1)
+      /\ (k = "unary" => a = 0) /\ (k = "client" => a \in {0, 1} /\ (a = 1 => ek = "err"))
       /\ InitWith(Mk(p, k, codec, http, <<"none", <<>>>>, 0, <<>>, 0, <<>>, <<M(1, 3)>>, HdrB, TrlB,
                      IF k \in {"unary", "client"} THEN <<M(101, 3)>> ELSE <<M(101, 3), M(102, 0)>>,
                      [Err(c, m, n, me, a) EXCEPT !.kind = ek]))
